@@ -446,5 +446,7 @@ SCALARS = {("int", "1"): 1, ("int", "0"): 0, ("bool", "True"): True, ("float", "
            ("NoneType", "None"): None}
 # a second instance of Kxi whose member has another type: the object [c |-> "Kxi", v |-> "s"]
 EXTRA_INSTANCES: dict[tuple[str, str], object] = {("Kxi", "s"): Kxi("")}
+for (_cn, _vn), _obj in EXTRA_INSTANCES.items():
+    globals()[f"INST_{_cn}_{_vn}"] = _obj
 for _name, _obj in INSTANCES.items():  # module attributes INST_<class>: literals for the snippets
     globals()["INST_" + _name] = _obj
